@@ -245,20 +245,40 @@ def f64_copysign(x: ir.f64, y: ir.f64) -> ir.f64:
     return math.copysign(x, y)
 
 
+def _fmin(x: float, y: float) -> float:
+    if math.isnan(x) or math.isnan(y):
+        return math.nan
+    elif x == y:
+        # Take care of signed zeros: min(0.0, -0.0) = -0.0
+        return x if math.copysign(1.0, x) < 0 else y
+    else:
+        return min(x, y)
+
+
+def _fmax(x: float, y: float) -> float:
+    if math.isnan(x) or math.isnan(y):
+        return math.nan
+    elif x == y:
+        # Take care of signed zeros: max(-0.0, 0.0) = 0.0
+        return x if math.copysign(1.0, x) > 0 else y
+    else:
+        return max(x, y)
+
+
 def f32_min(x: ir.f32, y: ir.f32) -> ir.f32:
-    return min(x, y)
+    return _fmin(x, y)
 
 
 def f64_min(x: ir.f64, y: ir.f64) -> ir.f64:
-    return min(x, y)
+    return _fmin(x, y)
 
 
 def f32_max(x: ir.f32, y: ir.f32) -> ir.f32:
-    return max(x, y)
+    return _fmax(x, y)
 
 
 def f64_max(x: ir.f64, y: ir.f64) -> ir.f64:
-    return max(x, y)
+    return _fmax(x, y)
 
 
 def f32_abs(x: ir.f32) -> ir.f32:
